@@ -44,13 +44,20 @@ DropSoft(m, d) ==
 WResetRaw(m, w) == LET d == m.s.wp[w] IN
                    IF d = 0 THEN m ELSE DropSoft([m EXCEPT !.s.wp[w] = 0], d)
 (* the hard-count half of cstl_shared_ptr_reset; the clear callback runs inside cstl_unique_ptr_reset, before
-   the memory is freed, and may call back into the library (clr = 2: it resets weak pointer W1) *)
+   the memory is freed, and may call back into the library (clr = 2: it resets weak pointer W1; clr = 3: it
+   locks W1) *)
 DropHard(m, d) ==
     LET old == m.s.al[d].hard
         m1 == [m EXCEPT !.s.al[d].hard = old - 1]
     IN IF old = 1
        THEN LET m2 == IF m1.s.al[d].clr > 0 THEN Ev(m1, <<"clr", d>>) ELSE m1
-                m3 == IF m1.s.al[d].clr = 2 /\ NW >= 1 THEN WResetRaw(m2, 1) ELSE m2
+                w1 == IF NW >= 1 THEN m1.s.wp[1] ELSE 0
+                m3 == IF m1.s.al[d].clr = 2 /\ NW >= 1 THEN WResetRaw(m2, 1)
+                      ELSE IF m1.s.al[d].clr = 3 /\ NW >= 1
+                           \* clr = 3: the callback locks weak pointer W1 into a temporary and drops it again; the
+                           \* lock finds an owner iff W1's block has one left (never the block being torn down)
+                           THEN Ev(m2, <<"cblock", IF w1 # 0 /\ m1.s.al[w1].hard > 0 THEN 1 ELSE 0>>)
+                           ELSE m2
             IN [Ev(m3, <<"freem", d>>) EXCEPT !.s.al[d].mem = FALSE, !.s.al[d].clr = 0]
        ELSE m1
 SResetM(m, s) == LET d == m.s.sp[s] IN
@@ -192,6 +199,11 @@ Contract(o, pre, post, nlive, tsp, twp, ev, ret) ==
                     \o (IF pre.up[u].has THEN << <<"ufree", u>> >> ELSE <<>>)
     IN
     /\ LifeOK(pre, tsp, twp, ev)
+    \* a clear callback that locks weak pointer W1 (kind 3) gets an owner iff W1's block still has one: never for
+    \* the block whose last owner is going away in this very operation
+    /\ \A i \in 1..Len(ev) : ev[i][1] = "cblock" =>
+          LET w == pre.wp[1] IN
+          ev[i][2] = (IF w # 0 /\ pre.al[w].mem /\ (\E x \in SP : tsp[x] = w) THEN 1 ELSE 0)
     \* what is live afterwards is exactly what the pointer objects keep alive: no leak
     /\ \A d \in 1..Len(post.al) : post.al[d].mem = (Owners(post, d) # {})
     /\ nlive = Len(post.al) + Cardinality({d \in 1..Len(post.al) : post.al[d].mem})
